@@ -1,2 +1,275 @@
-(* C07 (placeholder while the proofs are being written) *)
+(* C07  Subscribers are offered exactly what they requested; teardown reaches
+   everyone.
+
+   Statements only; every proof is [exact lemma].  Model: Model/Subscribe.v
+   (tied to rtpconn/webclient.go and rtpconn/rtpconn.go by the `subscribe`
+   correspondence driver: the REAL requestedTracks / pushDownConn /
+   handleAction / delUpConn / gotOffer / leaveGroup, real pion publishers).
+
+   Layer 1 is about requestedTracks alone.  Layer 2 is about all histories:
+   a history is a list of events [op] (a client reads a message, a client
+   serves one queued action, a connection ends, a delayed push fires, OnTrack
+   adds a track), in ANY order: the list is the schedule.  [ok_run w ops] is the
+   hypothesis on histories: stream ids are unique (an offer that creates a
+   stream uses an id no stream ever had) and `replace` names one of the
+   publisher's own streams and comes with the FIRST offer of the replacing
+   stream (what the reference client does; Proofs/SubscribeWitness.v shows that
+   label identity and teardown fail without either).  WebRTC negotiation, the
+   arrival of tracks and the moment at which the delayed push fires are part of
+   the events (oracles), not of the model. *)
+From Coq Require Import List Bool Arith PeanoNat.
 From Galene Require Import Model.Subscribe.
+From Galene Require Import Proofs.SubscribeSelect Proofs.SubscribeFrame Proofs.SubscribeInv
+  Proofs.SubscribeStep Proofs.SubscribeHeap Proofs.SubscribeOwn Proofs.SubscribeOut
+  Proofs.SubscribeProps Proofs.SubscribeTeardown Proofs.SubscribeExact Proofs.SubscribeWitness.
+Import ListNotations.
+
+(* ------------------------------------------------------------------ *)
+(* Layer 1: the pure selection                                         *)
+
+(* For ALL request lists and ALL lists of track kinds requestedTracks returns
+   the table of the property: the first audio track iff "audio" is requested
+   (and there is one), then the first video track iff "video" is requested,
+   else the LAST video track iff "video-low" is requested; limitSid iff
+   video-low without video and fewer than two video tracks.  [first_idx] and
+   [last_idx] are characterised below. *)
+Theorem C07_requested_tracks : forall req ks,
+  requested_tracks req ks =
+  (let audio := if existsb (rk_eqb RAudio) req then opt_list (first_idx KAudio ks) else [] in
+   if existsb (rk_eqb RVideo) req then (audio ++ opt_list (first_idx KVideo ks), false)
+   else if existsb (rk_eqb RVideoLow) req then
+          (audio ++ opt_list (last_idx KVideo ks), Nat.ltb (count_kind KVideo ks) 2)
+        else (audio, false)).
+Proof. exact requested_tracks_spec. Qed.
+Print Assumptions C07_requested_tracks.
+
+Theorem C07_first_track : forall k ks i,
+  first_idx k ks = Some i <->
+  (nth_error ks i = Some k /\ forall j, j < i -> nth_error ks j <> Some k).
+Proof. exact first_idx_spec. Qed.
+Print Assumptions C07_first_track.
+
+Theorem C07_last_track : forall k ks i,
+  last_idx k ks = Some i <->
+  (nth_error ks i = Some k /\ forall j, i < j -> nth_error ks j <> Some k).
+Proof. exact last_idx_spec. Qed.
+Print Assumptions C07_last_track.
+
+Theorem C07_no_track_of_kind : forall k ks, first_idx k ks = None <-> ~ In k ks.
+Proof. exact first_idx_none. Qed.
+Print Assumptions C07_no_track_of_kind.
+
+(* nothing else: every chosen track is of a requested kind and is the first /
+   last of its kind; at most two tracks; an empty request selects nothing *)
+Theorem C07_requested_tracks_nothing_else : forall req ks i,
+  In i (fst (requested_tracks req ks)) ->
+  (In RAudio req /\ is_first KAudio ks i) \/
+  (In RVideo req /\ is_first KVideo ks i) \/
+  (~ In RVideo req /\ In RVideoLow req /\ is_last KVideo ks i).
+Proof. exact requested_tracks_sound. Qed.
+Print Assumptions C07_requested_tracks_nothing_else.
+
+Theorem C07_requested_tracks_limit : forall req ks,
+  snd (requested_tracks req ks) = true <->
+  (~ In RVideo req /\ In RVideoLow req /\ count_kind KVideo ks < 2).
+Proof. exact requested_tracks_limit. Qed.
+Print Assumptions C07_requested_tracks_limit.
+
+Theorem C07_requested_tracks_empty : forall ks, requested_tracks [] ks = ([], false).
+Proof. exact requested_tracks_empty. Qed.
+Print Assumptions C07_requested_tracks_empty.
+
+(* ------------------------------------------------------------------ *)
+(* Layer 2: all histories                                              *)
+
+(* The structural invariant (unique ids, tables, queues, timers) holds along
+   every history that satisfies the hypothesis. *)
+Theorem C07_invariant : forall n ops,
+  ok_run (init n) ops -> Inv (run (init n) ops).
+Proof. intros n ops H. exact (Inv_run ops (init n) (Inv_init n) H). Qed.
+Print Assumptions C07_invariant.
+
+(* label identity: every offer a step sends carries the id, the label and the
+   owner of THE stream with that id, and the owner's username *)
+Theorem C07_label_identity : forall w o m id lab rep src usr,
+  reachable w -> ok_op w o ->
+  sent w o m (OOffer id lab rep src usr) ->
+  exists u, u < w_nup w /\ uo_id (w_up w u) = id /\
+            uo_owner (w_up w u) = src /\ uo_label (w_up w u) = lab /\
+            usr = c_user (w_cl w src) /\
+            (forall v, v < w_nup w -> uo_id (w_up w v) = id -> v = u).
+Proof. exact label_identity. Qed.
+Print Assumptions C07_label_identity.
+
+(* same group only: a client that holds a down stream is a member of the group
+   in which the stream was published (uo_group: the publisher's group when it
+   offered the stream), is not the publisher, and while the stream lives the
+   publisher is a member of the same group *)
+Theorem C07_same_group_only : forall w m d,
+  reachable w -> In d (c_down (w_cl w m)) ->
+  c_group (w_cl w m) = Some (uo_group (w_up w (d_remote d))) /\
+  uo_owner (w_up w (d_remote d)) <> m /\
+  (uo_closed (w_up w (d_remote d)) = false ->
+   c_group (w_cl w (uo_owner (w_up w (d_remote d)))) = c_group (w_cl w m)).
+Proof. exact same_group_downs. Qed.
+Print Assumptions C07_same_group_only.
+
+(* ... and an offer is only ever sent to a member of the stream's group (never
+   to a member of another group, never to a client that has not joined) *)
+Theorem C07_same_group_only_offers : forall w o m id lab rep src usr,
+  reachable w -> ok_op w o ->
+  sent w o m (OOffer id lab rep src usr) ->
+  exists u, u < w_nup w /\ uo_id (w_up w u) = id /\
+            c_group (w_cl w m) = Some (uo_group (w_up w u)) /\ uo_owner (w_up w u) <> m.
+Proof. exact same_group_offer. Qed.
+Print Assumptions C07_same_group_only_offers.
+
+(* teardown reaches everyone: at quiescence (every live client has served its
+   queue, no delayed push is pending) no live client holds a down stream whose
+   publisher stream has ended - whether it ended by close, replace, unpresent,
+   leave, kick or the end of the publisher's connection, in every interleaving.
+   PARTIAL with respect to the property text in one point: that the client was
+   SENT a `close` (or an offer carrying `replace`) when the stream was removed
+   is stated for each evaluation by C07_close_only_when / C07_offer_exact but
+   not as a theorem of its own (C07_teardown_full_statement). *)
+Theorem C07_teardown_partial : forall n ops,
+  ok_run (init n) ops ->
+  let w := run (init n) ops in
+  quiescentb w = true ->
+  forall m d, c_dead (w_cl w m) = false -> In d (c_down (w_cl w m)) ->
+              uo_closed (w_up w (d_remote d)) = false.
+Proof.
+  intros n ops H w Hq.
+  exact (teardown_quiescent w (proj1 (reach_init n ops H)) (proj1 (proj2 (reach_init n ops H)))
+                            (proj2 (proj2 (reach_init n ops H))) Hq).
+Qed.
+Print Assumptions C07_teardown_partial.
+
+Definition C07_teardown_full_statement : Prop :=
+  forall w o m id,
+    reachable w -> ok_op w o ->
+    get_down id (c_down (w_cl w m)) <> None ->
+    get_down id (c_down (w_cl (step w o) m)) = None ->
+    c_group (w_cl (step w o) m) <> None -> c_dead (w_cl (step w o) m) = false ->
+    sent w o m (OClose id) \/ exists i l s u, sent w o m (OOffer i l id s u).
+
+(* close only when: a `close` is sent to a client only as the answer to its own
+   abort, or to its own answer (unknown stream, or the negotiation failed), or
+   when it serves a queued push and the stream with that id has ended (closed
+   by the publisher, replaced, the publisher left / was kicked / lost
+   `present`), or the tracks the stream had when it was pushed contain none that
+   the client requests (this includes the stream it was never offered) *)
+Theorem C07_close_only_when : forall w o m id,
+  reachable w -> ok_op w o -> sent w o m (OClose id) ->
+  o = OpMsg m (MAbort id) \/
+  (exists ok, o = OpMsg m (MAnswer id ok)) \/
+  (o = OpPump m /\
+   (ended w id \/
+    exists u ts r, u < w_nup w /\ uo_id (w_up w u) = id /\
+                   (exists l, uo_tracks (w_up w u) = ts ++ l) /\
+                   fst (requested_tracks (push_req w m u r) ts) = [])).
+Proof. exact close_only_when. Qed.
+Print Assumptions C07_close_only_when.
+
+(* own abort local: whatever message a client sends (abort, request,
+   requestStream, answer, ...), the down streams and the outbox of every OTHER
+   client are unchanged by that step ... *)
+Theorem C07_own_abort_local : forall w c msg m,
+  m <> c ->
+  c_down (w_cl (step w (OpMsg c msg)) m) = c_down (w_cl w m) /\
+  c_out (w_cl (step w (OpMsg c msg)) m) = c_out (w_cl w m).
+Proof. intros w c msg m H. exact (msg_local w c msg m H). Qed.
+Print Assumptions C07_own_abort_local.
+
+(* ... and the request it triggers is served by pushes to the requester only:
+   handling requestConnsAction changes nobody's down streams or outbox and
+   nobody's queue but the requester's (and the handler's own) *)
+Theorem C07_request_reaches_only_requester : forall w p g t id q,
+  c_queue (w_cl w p) = AReqConns g t id :: q ->
+  p < w_n w -> c_dead (w_cl w p) = false ->
+  let w' := step w (OpPump p) in
+  (forall m, c_down (w_cl w' m) = c_down (w_cl w m) /\ c_out (w_cl w' m) = c_out (w_cl w m)) /\
+  (forall m, m <> t -> m <> p -> c_queue (w_cl w' m) = c_queue (w_cl w m)).
+Proof. exact request_reaches_only_requester. Qed.
+Print Assumptions C07_request_reaches_only_requester.
+
+(* offered iff requested, PARTIAL: every evaluation of a pushed stream leaves
+   the subscriber with exactly the tracks that requestedTracks selects from the
+   tracks the stream had when it was pushed, under the request in force (the
+   per-stream request, else the entry of the stream's label, else the default
+   entry; an entry that is present and empty means "nothing") - or without the
+   stream if nothing is selected or the stream has ended.  ts is the oracle
+   "the stream has tracks of kinds ts". *)
+Theorem C07_offer_exact_partial : forall m id u ts r w g,
+  Inv w -> action_ok w m (APush g id (Some u) ts r) -> c_group (w_cl w m) = Some g ->
+  let w' := fst (push_down_conn m id (Some u) ts r w) in
+  let sel := requested_tracks (push_req w m u r) ts in
+  snd (push_down_conn m id (Some u) ts r w) = false /\
+  match get_down (uo_id (w_up w u)) (c_down (w_cl w' m)) with
+  | None => fst sel = [] \/ uo_closed (w_up w u) = true
+  | Some d =>
+      fst sel <> [] /\ d_remote d = u /\
+      (forall p, In p (d_tracks d) <-> In p (map (fun i => (u, i)) (fst sel))) /\
+      d_limit d = snd sel
+  end.
+Proof. exact push_exact. Qed.
+Print Assumptions C07_offer_exact_partial.
+
+(* The statement at quiescence.  NOT proved (C07_offer_exact_partial is the
+   statement per evaluation).  It can only hold for a subscriber that sent no
+   abort / requestStream / refused answer for the stream.  Before the repair of
+   finding F26 (pushConn pushed to the clients that were in the group when the
+   push was SCHEDULED) it was false: a member that joined inside the push delay
+   of a stream was not offered it when its tracks arrived; [late_joiner_offered]
+   is that schedule on the repaired model, driver streams corpus-late-joiner*. *)
+Definition C07_offered_iff_requested_full_statement : Prop :=
+  forall n ops m u,
+    ok_run (init n) ops ->
+    Forall (fun o => match o with
+                     | OpMsg c (MRequestStream _ _) | OpMsg c (MAbort _) | OpMsg c (MAnswer _ _) => c <> m
+                     | _ => True
+                     end) ops ->
+    let w := run (init n) ops in
+    quiescentb w = true ->
+    c_dead (w_cl w m) = false ->
+    u < w_nup w -> uo_closed (w_up w u) = false -> uo_owner (w_up w u) <> m ->
+    c_group (w_cl w m) = Some (uo_group (w_up w u)) ->
+    let sel := requested_tracks (base_req (w_cl w m) (uo_label (w_up w u))) (uo_tracks (w_up w u)) in
+    match get_down (uo_id (w_up w u)) (c_down (w_cl w m)) with
+    | None => fst sel = []
+    | Some d => fst sel <> [] /\ d_remote d = u /\
+                (forall p, In p (d_tracks d) <-> In p (map (fun i => (u, i)) (fst sel))) /\
+                d_limit d = snd sel
+    end.
+
+(* ------------------------------------------------------------------ *)
+(* Non-vacuity: a history that satisfies the hypothesis, reaches quiescence,
+   and in which a subscriber holds a real stream with two tracks, a member
+   without request holds nothing, and a close tears the stream down. *)
+Example C07_example :
+  ok_run (init 3) good_close /\ ok_run (init 2) late_joiner /\
+  (let w := run (init 2) late_joiner in
+   quiescentb w = true /\
+   map (fun d => (d_id d, d_remote d, d_tracks d)) (c_down (w_cl w 1)) = [(1, 0, [(0, 0)])]) /\
+  quiescentb (run (init 3) good_history) = true /\
+  map (fun d => (d_id d, d_remote d, d_tracks d)) (c_down (w_cl (run (init 3) good_history) 1))
+    = [(1, 0, [(0, 0); (0, 1)])] /\
+  c_out (w_cl (run (init 3) good_history) 1) = [OOffer 1 1 0 0 1] /\
+  c_down (w_cl (run (init 3) good_history) 2) = [] /\
+  quiescentb (run (init 3) good_close) = true /\
+  c_down (w_cl (run (init 3) good_close) 1) = [] /\
+  c_out (w_cl (run (init 3) good_close) 1) = [OOffer 1 1 0 0 1; OClose 1].
+Proof.
+  split; [exact good_close_ok|]. split; [exact late_joiner_ok|]. vm_compute. repeat split.
+Qed.
+
+(* Without unique ids label identity fails; without `replace` on the first
+   offer teardown fails (the hypotheses are needed). *)
+Example C07_hypotheses_needed :
+  ok_runb (init 3) collision = false /\
+  (let w := run (init 3) collision in
+   map (fun d => (d_id d, uo_owner (w_up w (d_remote d)), d_tracks d)) (c_down (w_cl w 2)) = [(1, 0, [(1, 0)])]) /\
+  ok_runb (init 2) replace_on_existing = false /\
+  (let w := run (init 2) replace_on_existing in
+   quiescentb w = true /\ uo_closed (w_up w 1) = true /\ map d_id (c_down (w_cl w 1)) = [1; 2]).
+Proof. vm_compute. repeat split. Qed.
